@@ -164,3 +164,17 @@ Definition prog_ok (reps : bool) (C : nat) (prog : list node) : bool :=
 (* source-level guards *)
 Definition guard_C17_built_ok (reps : bool) (C : nat) (s : src) : bool :=
   match build_program s with Ok prog => prog_ok reps C prog | Err _ => true end.
+
+(* zero-factor-aliases-plain, exactly: an index-dependent voltage must have a non-zero coefficient among the loops
+   that actually enclose it (coefficients beyond the nesting depth are ignored by the builder) *)
+Definition nz_within (d : nat) (coefs : list Q) : bool := existsb (fun c => negb (Qeq_bool c 0)) (firstn d coefs).
+Fixpoint guard_C17_zero_factor_depth (d : nat) (s : src) : bool :=
+  match s with
+  | SHold _ vs => forallb (fun v => match v with VAff _ cs => nz_within d cs | _ => true end) vs
+  | SSeq l => (fix go (l : list src) : bool := match l with [] => true | x :: l' => guard_C17_zero_factor_depth d x && go l' end) l
+  | SRep _ body => guard_C17_zero_factor_depth d body
+  | SIter _ _ _ body => guard_C17_zero_factor_depth (S d) body
+  end.
+(* dependency keys (factors rounded to the increment resolution, trailing zeros stripped) identify the factor tuples *)
+Definition guard_C17_key_collision (s : src) : bool :=
+  match build_program s with Ok prog => keys_inj_b (prog_factors prog) | Err _ => true end.
